@@ -1606,6 +1606,11 @@ class Data(BaseCartesianData):
             if cname in old_labels & new_labels:
                 comp_old = self.get_component(cname)
                 comp_new = data.get_component(cname)
+                # Derived and coordinate components are computed on-the-fly
+                # from this dataset (their _data attribute is the parent
+                # dataset, not an array) so they should not be re-pointed
+                if isinstance(comp_old, (DerivedComponent, CoordinateComponent)):
+                    continue
                 comp_old._data = comp_new._data
 
         # Add components that didn't exist in original one. As above, we try
